@@ -291,11 +291,13 @@ class kMinPathErrorCycles(walkmodel.AbstractWalkModelDiGraph):
         
         # We will encode that edge_vars[(u,v,i)] * self.path_weights_vars[(i)] = self.pi_vars[(u,v,i)],
         # assuming self.w_max is a bound for self.path_weights_vars[(i)]
+        # A walk can traverse an edge several times, so the products (edge multiplicity) * (walk weight or slack) can exceed w_max
+        pi_max = self.w_max * max(self.edge_upper_bounds.values())
         self.pi_vars = self.solver.add_variables(
             self.edge_indexes,
             name_prefix="pi",
             lb=0,
-            ub=self.w_max,
+            ub=pi_max,
             var_type="integer" if self.weight_type == int else "continuous",
         )
         
@@ -314,7 +316,7 @@ class kMinPathErrorCycles(walkmodel.AbstractWalkModelDiGraph):
             self.edge_indexes,
             name_prefix="gamma",
             lb=0,
-            ub=self.w_max,
+            ub=pi_max,
             var_type="continuous",
         )
                 
